@@ -74,5 +74,21 @@ let handle = function
          | Some s -> Buffer.add_string buf (summary (observe s)))
       done;
       Buffer.contents buf
+  | "dsweep" :: var :: from :: upto :: orcs :: ind :: unq :: noe :: rest ->
+      (* growing buffer, every initial size from..upto, one oracle per size separated by '/' *)
+      let c, o = variant var in let f = flags ind unq noe in
+      let v, _ = pval rest in
+      let ops = root_ops o f v in
+      let a = int_of_string from and b = int_of_string upto in
+      let os = Array.of_list (String.split_on_char '/' orcs) in
+      if Array.length os <> b - a + 1 then failwith "dsweep: oracle count";
+      let buf = Buffer.create 4096 in
+      for sz = a to b do
+        if sz > a then Buffer.add_char buf ' ';
+        (match run_f c ops (init c Dynamic (z_of_int sz) (oracle os.(sz - a))) with
+         | None -> Buffer.add_string buf "H"
+         | Some s -> Buffer.add_string buf (summary (observe s)))
+      done;
+      Buffer.contents buf
   | l -> "BAD " ^ String.concat " " l
 let () = main_loop handle
